@@ -1010,6 +1010,30 @@ class Interp(object):
                     self.unsupported("StringIO over abstract text", node)
                 return StringIOModel(init)
             return DequeModel(self.iterate(args[0]) if args else [])
+        if f.name.startswith("operator.") and not kwargs:
+            # functions of the operator module: the corresponding expression, evaluated by the interpreter
+            cmp_ = {"lt": ast.Lt, "le": ast.LtE, "gt": ast.Gt, "ge": ast.GtE, "eq": ast.Eq, "ne": ast.NotEq,
+                    "is_": ast.Is, "is_not": ast.IsNot}
+            bin_ = {"add": "+", "sub": "-", "mul": "*", "truediv": "/", "floordiv": "//", "mod": "%", "pow": "**",
+                    "and_": "&", "or_": "|", "xor": "^", "lshift": "<<", "rshift": ">>"}
+            if n in cmp_ and len(args) == 2:
+                return self.compare(cmp_[n](), args[0], args[1], node)
+            if n in bin_ and len(args) == 2:
+                return self.binop(bin_[n], args[0], args[1], node)
+            if n == "contains" and len(args) == 2:
+                return self.contains(args[0], args[1], node)
+            if n == "getitem" and len(args) == 2:
+                return self.subscript_value(args[0], args[1])
+            if n in ("neg", "not_", "truth", "pos", "invert", "index") and len(args) == 1:
+                v = args[0]
+                if n == "not_":
+                    return not self.truth(v)
+                if n == "truth":
+                    return self.truth(v)
+                if n == "neg":
+                    return self.binop("-", 0, v, node)
+                if n == "pos" or n == "index":
+                    return v
         if n == "methodcaller" and args and isinstance(args[0], str):
             mname, margs, mkw = args[0], list(args[1:]), dict(kwargs)
             return Prim(lambda it, a, k: it.call(it.getattr(a[0], mname), margs, mkw), "methodcaller(%s)" % mname)
@@ -1288,6 +1312,8 @@ class Interp(object):
                 return r
         if hasattr(v, "__iter__") and not isinstance(v, Abs):
             return list(v)
+        if v is None or isinstance(v, (bool, int, float, Fraction)):
+            raise AbsRaise("TypeError", ("'%s' object is not iterable" % type(v).__name__,))
         self.unsupported("iteration over %r" % (v,), node)
 
     # ------------------------------------------------------------------ statements
